@@ -1,7 +1,7 @@
 (* Properties_C17.v — logic-level memory safety of the driver's bookkeeping: every lookup that the C++ performs
    on its lists is either guarded or provably succeeds, for every history of registrations and removals.
    (Memory safety of the compiled code itself is evidenced by the sanitizer runs of the harness, not proved.) *)
-From SP Require Import Base ListAux Os OsLemmas Objects DriverModel DriverLemmas TodoModel TodoLemmas.
+From SP Require Import Base ListAux Os OsLemmas Objects DriverModel DriverLemmas TodoModel TodoLemmas SendLink TlsModel Sim BrokenPromises.
 Local Open Scope Z_scope.
 
 (* Send on a socket whose peer already disconnected: the descriptor is no longer listed; arming POLLOUT must not
@@ -126,6 +126,25 @@ Proof.
   destruct (f_state ft =? 0) eqn:E; [apply Z.eqb_eq in E; contradiction|reflexivity].
 Qed.
 
+(* "Futures of sends that can no longer happen are released as broken promises when the socket is destroyed, never left
+   dangling": the destructor of an asynchronous (non-TLS) socket resolves the future of EVERY queued send with state 3
+   (std::future_error: broken promise) — each was still pending, none is resolved twice (the queue holds distinct futures),
+   every other future keeps its state, and the socket ends closed with an empty queue. *)
+Theorem destroy_breaks_every_pending_send : forall k (s s' : os ext) sk,
+  aget k (x_socks (o_ext s)) = Some sk -> s_open sk = true -> s_async sk = true -> aget k (x_tls (o_ext s)) = None ->
+  destroy_sock k s = (Ok tt, s') ->
+  (forall f, In f (map qfut (s_sendq sk)) -> fstate s f = 0 /\ fstate s' f = 3) /\
+  (forall g, ~ In g (map qfut (s_sendq sk)) -> fstate s' g = fstate s g) /\
+  (exists sk', aget k (x_socks (o_ext s')) = Some sk' /\ s_sendq sk' = [] /\ s_open sk' = false).
+Proof. exact BrokenPromises.destroy_breaks_every_pending_send. Qed.
+
+(* non-vacuity: two sends queued on an asynchronous TCP socket that is destroyed before the driver ever steps *)
+Example destroy_with_two_pending :
+  let tr := run_case [(1, [1]); (2, []); (40, []); (10, [1; 0; 64]); (20, [1]); (30, [1; 1; 100]); (60, [1; 1; 2]);
+                      (61, [1; 1; 5]); (61, [1; 1; 7]); (28, [1])] [] [] in
+  In (K_FUTURE, [0; 3]) tr /\ In (K_FUTURE, [1; 3]) tr /\ In (K_RET, [28; 1; 1]) tr.
+Proof. vm_compute. repeat split; tauto. Qed.
+
 Example c17_nonvacuous :
   RInv 1001 ([(1, 1002); (2, 1003)], [(1001, 1); (1002, 1); (1003, 5)]) /\
   reg_step ([(1, 1002); (2, 1003)], [(1001, 1); (1002, 1); (1003, 5)]) (RDel 1 1002) = ([(2, 1003)], [(1001, 1); (1003, 5)]) /\
@@ -143,3 +162,4 @@ Print Assumptions unregister_tolerates_absent.
 Print Assumptions remove_tolerates_absent.
 Print Assumptions pfds_aligned_invariant.
 Print Assumptions promises_resolved_at_most_once_guard.
+Print Assumptions destroy_breaks_every_pending_send.
